@@ -1284,6 +1284,19 @@ func genC15(r *Rand, p *Plan, tier string) {
 		genAtomicReload(r, p, tier)
 		return
 	}
+	if r.Chance(6) {
+		// the file watcher under the race detector, with a consumer that does not take every
+		// publication at once: reloads must still be ordered
+		genC16watcher(r, p, tier)
+		p.Family = "config-watcher-race"
+		p.Build = "race"
+		for i := range p.Scen.Loader.Steps {
+			if i > 0 && i < len(p.Scen.Loader.Steps)-1 && r.Chance(50) {
+				p.Scen.Loader.Steps[i].NoTake = true
+			}
+		}
+		return
+	}
 	if r.Chance(25) {
 		// published configurations are never written again (loader histories, JSON and YAML)
 		genC16(r, p, tier)
